@@ -288,8 +288,9 @@ let check_group ?(oracle = own_oracle) ?(inclass = ref 0) ?(deviations = ref 0) 
                     result := Some (L [ A "driver-error"; S "memoising evaluator disagrees with Model/Eval.heval" ])
                 end;
                 if !result = None && lhs <> rhs then begin
-                  (* re-check with the window doubled (when one point of it is affordable) *)
-                  let affordable = point_cost (2 * m) <= (if oracle.strict && oracle.wide then 40_000_000 else 4_000_000) in
+                  (* re-check with the window doubled (published oracles, whose windows can be wide: only when one
+                     point of the doubled window is affordable) *)
+                  let affordable = (not oracle.wide) || point_cost (2 * m) <= (if oracle.strict then 40_000_000 else 4_000_000) in
                   let w2 = if affordable then mk_window (2 * m) syms else w in
                   let (lhs2, rhs2) =
                     if affordable then begin
@@ -306,8 +307,8 @@ let check_group ?(oracle = own_oracle) ?(inclass = ref 0) ?(deviations = ref 0) 
                                         L [ A "H"; of_atoms h ]; L [ A "T"; of_atoms t ];
                                         L [ A "window"; Semlib.of_window w ];
                                         L [ A "ht-satisfies-implementation-formulas"; of_boolv lhs ];
-                                        L [ A ("ht-satisfies-rules-reference-semantics-" ^ oracle.oname); of_boolv rhs ];
-                                        L [ A "doubled-window"; A (if affordable then "evaluated" else "too-large"); of_boolv lhs2; of_boolv rhs2 ] ]
+                                        L [ A (if oracle.wide then "ht-satisfies-rules-reference-semantics-" ^ oracle.oname else "ht-satisfies-rules-reference-semantics"); of_boolv rhs ];
+                                        L ([ A "doubled-window" ] @ (if oracle.wide then [ A (if affordable then "evaluated" else "too-large") ] else []) @ [ of_boolv lhs2; of_boolv rhs2 ]) ]
                                        @ (if oracle.wide then [ L [ A "class"; A (if cls then "F24" else "none") ] ] else [])))
                   end
                   else incr artefacts
